@@ -21,4 +21,5 @@ import Mahotas.Proofs.CScalarTies.MarginOf
 import Mahotas.Proofs.CScalarTies.Convex
 import Mahotas.Proofs.CScalarTies.AtFlat
 import Mahotas.Proofs.CScalarTies.PosToFlat
+import Mahotas.Proofs.CScalarTies.Surf
 
